@@ -1086,7 +1086,7 @@ def h_quantifier(mode, outer_is):
             ex = [e for e in p.events if e[0] == 'exhausted' and e[1] == 'all']
             outer = slices[0] if slices else None
             full = outer is not None and z.entails_eq(outer[2], 0) and z.entails_eq(outer[3], st.maps[outer[1]].len0)
-            if not slices and mode in ('subset', 'disjoint', 'eq'):
+            if not slices:
                 # nothing to scan: only acceptable when the scanned operand is empty
                 full = False
             ok = bool(ex) and full
@@ -1097,7 +1097,7 @@ def h_quantifier(mode, outer_is):
             ctx.req('POL', ok, nm + ':true',
                     'true may be returned only after every element of %s was examined'
                     % {'self': 'the left operand', 'other': 'the right operand', 'either': 'one operand'}[outer_is], p)
-            if mode == 'eq':
+            if mode in ('eq', 'seteq'):
                 ctx.req('RET-IMPLIES', z.entails_eq(ma.len0, mb.len0), nm + ':true',
                         'true may be returned only when both operands have the same number of entries', p)
             return
@@ -1128,7 +1128,7 @@ def h_quantifier(mode, outer_is):
                 sub, sup = (ma, mb) if outer_is == 'self' else (mb, ma)
                 ctx.req('SHORTCUT', bool(conds) and z.entails_lt(sup.len0, sub.len0), nm + ':shortcut',
                         'false without scanning is only sound when the would-be subset has more elements than the other set', p)
-            elif mode == 'eq':
+            elif mode in ('eq', 'seteq'):
                 ok = bool(conds) and not z.entails_eq(ma.len0, mb.len0) and any(
                     ma.len0 in _terms(e[1]) and mb.len0 in _terms(e[1]) for e in conds)
                 ctx.req('SHORTCUT', ok, nm + ':shortcut',
@@ -1149,6 +1149,279 @@ def _terms(t, acc=None):
         for x in t:
             _terms(x, acc)
     return acc
+
+
+# ------------------------------------------------------------------------------ set algebra (C08)
+DIFF, DIFFREF = 'set::difference::Difference', 'set::difference::difference_ref::DifferenceRef'
+INTER, UNION, SYMDIFF = 'set::intersection::Intersection', 'set::union::Union', \
+    'set::symmetric_difference::SymmetricDifference'
+
+
+def _other_map(p, v, exclude):
+    """the (non-phantom) container reachable from the iterator value other than its own cursor's"""
+    found = []
+
+    def walk(x, d=0):
+        if not isinstance(x, tuple) or not x or d > 8:
+            return
+        if x[0] == 'map':
+            if x[1] != exclude and x[1] not in found:
+                found.append(x[1])
+        elif x[0] == 'ref' and x[2][0] in ('O', 'L'):
+            try:
+                walk(p.E.load(p.st, x[2], quiet=True), d + 1)
+            except Exception:
+                pass
+        elif x[0] == 'adt':
+            for y in x[3]:
+                walk(y, d + 1)
+        elif x[0] == 'tuple':
+            for y in x[1]:
+                walk(y, d + 1)
+    walk(v)
+    return found[0] if len(found) == 1 else None
+
+
+def _outer_tail(events):
+    loops = [e for e in events if e[0] == 'loop']
+    if not loops:
+        return events
+    k = loops[0][1]
+    last = max(i for i, e in enumerate(events) if e[0] == 'loop' and e[1] == k)
+    return events[last + 1:]
+
+
+def mentions_z(z, tag, t):
+    """does `tag` contain a sub-tag equal to t (index terms compared in the zone)?"""
+    if tag_eq(z, tag, t):
+        return True
+    if isinstance(tag, tuple):
+        return any(mentions_z(z, x, t) for x in tag if isinstance(x, tuple))
+    return False
+
+
+def mentions_prefix_z(z, tag, prefix):
+    if isinstance(tag, tuple):
+        if len(tag) >= len(prefix) and tag_eq(z, tag[:len(prefix)], prefix):
+            return True
+        return any(mentions_prefix_z(z, x, prefix) for x in tag if isinstance(x, tuple))
+    return False
+
+
+def _is_key_of(t, mid):
+    return isinstance(t, tuple) and len(t) == 4 and t[0] == 'slot' and t[1] == mid and tuple(t[3]) == (0,)
+
+
+def h_filter_next(pol):
+    def h(ctx, p):
+        nm = ctx.body.name
+        c0 = cursor_of(p.E, p.self0)
+        c1 = cursor_of(p.E, final_self(p))
+        if c0 is None or c1 is None:
+            ctx.req('OUT', False, nm, 'cannot find the cursor over the left operand', p)
+            return
+        L, f0, b0, _ = c0
+        _, f1, b1, _ = c1
+        B = _other_map(p, p.self0, L)
+        z = p.z
+        if B is None:
+            ctx.req('OUT', False, nm, 'cannot find the right operand', p)
+            return
+        quiet = not [e for e in p.events if e[0] in ('read', 'write', 'len', 'store')]
+        ctx.req('OUT', quiet, nm, 'the operands must not be modified', p)
+        if is_none(p.val):
+            ctx.classes['none'] += 1
+            ctx.req('OUT', z.entails_le(b1, f1) and z.entails_eq(b1, b0), nm + ':none',
+                    'None may be returned only when the left operand is exhausted', p)
+            return
+        item = some_of(p.val)
+        ctx.classes['some'] += 1
+        ok = item is not None and item[0] == 'ref' and item[2][0] == 'pair' and item[2][1] == L and tuple(item[2][3]) == (0,)
+        i = item[2][2] if ok else None
+        if not ok and item is not None and ctx.body.impl['self'].get('path') == DIFFREF:
+            # a set of references: the element itself (a copy of the stored reference) is yielded
+            t = vtag(item)
+            ok = isinstance(t, tuple) and len(t) == 4 and t[0] == 'stored' and t[1] == L and t[3] == 0
+            i = t[2] if ok else None
+        ctx.req('FLOW', ok, nm + ':some', 'the yielded reference must point to an element of the left operand itself', p)
+        if not ok:
+            return
+        ctx.req('ONCE', z.entails_eq(f1, i, 1) and z.entails_eq(b1, b0) and z.entails_le(f0, i), nm + ':some',
+                'the cursor must stand right behind the yielded element (no element is yielded twice or lost)', p)
+        pr = _probe(p.E, p.st, _outer_tail(p.events))
+        if pr is None or pr[0] != B:
+            ctx.req('POL', False, nm + ':some', 'the yielded element was not looked up in the right operand', p)
+            return
+        _, kind, hh, probe = pr
+        mine = (probe is None and kind == 'miss') or (_is_key_of(probe, L) and z.entails_eq(probe[2], i))
+        if pol == 'diff':
+            ctx.req('POL', kind == 'miss' and mine, nm + ':some',
+                    'an element may be yielded only if it was looked up in the right operand and NOT found', p)
+        else:
+            ctx.req('POL', kind == 'hit' and mine, nm + ':some',
+                    'an element may be yielded only if it was looked up in the right operand and found', p)
+    return h
+
+
+def filter_iteration(pol, via_fold):
+    """skipped elements of next() / every element of fold(): membership polarity and callback discipline"""
+    def mk(props):
+        def hook(E, body, key, st, seg):
+            pr = _probe(E, st, seg)
+            if pr is None:
+                return
+            it = Iteration(E, st, seg)
+            nm = body.name
+            X, kind, hh, probe = pr
+            calls = [e for e in seg if e[0] == 'user' and (e[1].endswith('::call_mut') or e[1].endswith('::call_once')
+                                                          or e[1].endswith('::call'))]
+            if not via_fold:
+                E.iter_classes['skipped'] += 1
+                want = 'hit' if pol == 'diff' else 'miss'
+                it_req(E, props, 'POL', kind == want, nm + ':skip',
+                       'an element may be skipped only if it was %s in the right operand'
+                       % ('found' if pol == 'diff' else 'not found'), it)
+                return
+            keep = (kind == 'miss') if pol == 'diff' else (kind == 'hit')
+            if kind == 'unknown':
+                it_req(E, props, 'POL', False, nm + ':fold', 'the element was not conclusively looked up in the right operand', it)
+                return
+            if keep:
+                E.iter_classes['folded'] += 1
+                ok = len(calls) == 1
+                if ok and probe is not None:
+                    if isinstance(probe, tuple) and len(probe) == 4 and probe[0] == 'slot':
+                        ok = mentions_z(st.zone, calls[0][2], probe) \
+                            or mentions_prefix_z(st.zone, calls[0][2], ('stored', probe[1], probe[2], 0))
+                it_req(E, props, 'POL', ok, nm + ':fold',
+                       'fold must pass exactly the elements that next() would yield to the closure, once each', it)
+            else:
+                E.iter_classes['dropped'] += 1
+                it_req(E, props, 'POL', not calls, nm + ':fold',
+                       'fold must not pass an element to the closure that next() would skip', it)
+        return hook
+    return mk
+
+
+def h_filter_hint(pol):
+    def h(ctx, p):
+        nm = ctx.body.name
+        from .interp import to_aff, aff_add, aff_norm
+        c0 = cursor_of(p.E, p.self0)
+        B = _other_map(p, p.self0, c0[0]) if c0 else None
+        if c0 is None or B is None:
+            ctx.req('HINT', False, nm, 'cannot find the operands', p)
+            return
+        L, f0, b0, _ = c0
+        z = p.z
+        olen = p.st.maps[B].len0
+        rem = ('slen', f0, b0)
+        v = p.val
+        ctx.classes['hint'] += 1
+        if not (v[0] == 'tuple' and len(v[1]) == 2):
+            ctx.req('HINT', False, nm, 'size_hint must return a pair', p)
+            return
+        lower, upper = v[1]
+
+        def same(x, y):
+            ax, ay = to_aff(x), to_aff(y)
+            if ax is None or ay is None:
+                return False
+            d = aff_add(ax, ay, -1)
+            if not d[0]:
+                return d[1] == 0
+            # equal up to zone equalities of the terms involved
+            return False
+        diff_expr = aff_norm(aff_add(to_aff(rem), to_aff(('int', olen)), -1))
+        if pol == 'diff':
+            # at least max(0, remaining - |other|) items will come (keys of the other set are unique)
+            ok_lo = lower == ('int', 0) or (lower[0] == 'satsub' and same(lower[1], diff_expr)) \
+                or (same(lower, diff_expr) and z.entails_lt(olen, b0))
+            ctx.req('HINT', ok_lo, nm + ':lower',
+                    'the lower bound may not exceed max(0, remaining - other.len())', p)
+            up = some_of(upper)
+            ok_up = is_none(upper) or (up is not None and same(up, rem))
+            ctx.req('HINT', ok_up, nm + ':upper', 'the upper bound may not be below the number of remaining elements', p)
+        else:
+            ctx.req('HINT', lower == ('int', 0), nm + ':lower', 'the lower bound of an intersection must be 0', p)
+            up = some_of(upper)
+            ok_up = is_none(upper) or (up is not None and (
+                same(up, rem) or same(up, ('int', olen)) or (
+                    up[0] == 'minof' and {True} == {same(up[1], rem) or same(up[1], ('int', olen))}
+                    and (same(up[2], rem) or same(up[2], ('int', olen))) and not same(up[1], up[2])) or False))
+            # (remaining, other.len() or their minimum are all valid upper bounds only if >= the true maximum
+            #  min(remaining, other.len()); `remaining` and the minimum qualify, other.len() alone does not)
+            if up is not None and same(up, ('int', olen)) and not same(up, rem):
+                ok_up = False
+            ctx.req('HINT', ok_up, nm + ':upper',
+                    'the upper bound may not be below min(remaining, other.len())', p)
+    return h
+
+
+def _describe_parts(p, v):
+    """structure of a set-algebra iterator value: list of ('plain', mid, lo, hi) / ('filter', path, mid, lo, hi, other)"""
+    out = []
+
+    def walk(x, d=0):
+        if not isinstance(x, tuple) or not x or d > 10:
+            return
+        if x[0] == 'adt' and x[1] in (DIFF, DIFFREF, INTER):
+            c = cursor_of(p.E, x)
+            o = _other_map(p, x, c[0] if c else None)
+            out.append(('filter', x[1], c[0] if c else None, c[1] if c else None, c[2] if c else None, o))
+            return
+        if x[0] == 'sliceit':
+            out.append(('plain', x[1], x[2], x[3]))
+            return
+        if x[0] == 'adt':
+            for y in x[3]:
+                walk(y, d + 1)
+        elif x[0] == 'tuple':
+            for y in x[1]:
+                walk(y, d + 1)
+    walk(v)
+    return out
+
+
+def h_make_algebra(kind):
+    def h(ctx, p):
+        nm = ctx.body.name
+        ctx.classes['made'] += 1
+        A = p.subjects_all[0][0] if p.subjects_all and p.subjects_all[0] else None
+        B = p.subjects_all[1][0] if len(p.subjects_all) > 1 and p.subjects_all[1] else None
+        z, st = p.z, p.st
+        if A is None or B is None:
+            ctx.req('FLOW', False, nm, 'cannot identify the two operands', p)
+            return
+        quiet = not [e for e in p.events if e[0] in ('read', 'write', 'len', 'store')]
+        ctx.req('OUT', quiet, nm, 'building a lazy set-algebra iterator must not modify the operands', p)
+        parts = _describe_parts(p, p.val)
+
+        def full(mid, lo, hi):
+            return mid is not None and z.entails_eq(lo, 0) and z.entails_eq(hi, st.maps[mid].len0)
+        if kind in ('difference', 'intersection'):
+            want = {'difference': (DIFF, DIFFREF), 'intersection': (INTER,)}[kind]
+            ok = len(parts) == 1 and parts[0][0] == 'filter' and parts[0][1] in want and parts[0][2] == A \
+                and full(A, parts[0][3], parts[0][4]) and parts[0][5] == B
+            ctx.req('FLOW', ok, nm, 'must iterate over all of self and filter by membership in other', p)
+            return
+        if kind == 'union':
+            ok = len(parts) == 2 and parts[0][0] == 'plain' and parts[1][0] == 'filter' and parts[1][1] in (DIFF, DIFFREF)
+            if ok:
+                X = parts[0][1]
+                Y = parts[1][2]
+                ok = {X, Y} == {A, B} and full(X, parts[0][2], parts[0][3]) and full(Y, parts[1][3], parts[1][4]) \
+                    and parts[1][5] == X
+            ctx.req('FLOW', ok, nm,
+                    'union must be all of one operand chained with the difference of the other operand minus that one', p)
+            return
+        if kind == 'symmetric_difference':
+            ok = len(parts) == 2 and all(q[0] == 'filter' and q[1] in (DIFF, DIFFREF) for q in parts)
+            if ok:
+                ok = {parts[0][2], parts[1][2]} == {A, B} and parts[0][5] == parts[1][2] and parts[1][5] == parts[0][2] \
+                    and full(parts[0][2], parts[0][3], parts[0][4]) and full(parts[1][2], parts[1][3], parts[1][4])
+            ctx.req('FLOW', ok, nm, 'symmetric difference must be (A minus B) chained with (B minus A)', p)
+    return h
 
 
 def _pulled_next(e):
@@ -1180,10 +1453,16 @@ ITER_HOOKS = {
     (MAP, 'Clone', 'clone'): ({'C15'}, clone_iteration, {'element'}),
     (SET, 'Clone', 'clone'): ({'C15'}, clone_iteration, {'element'}),
     (MAP, 'PartialEq', 'eq'): ({'C14'}, quantifier_iteration('eq'), {'continued'}),
-    (SET, 'PartialEq', 'eq'): ({'C14'}, quantifier_iteration('eq'), {'continued'}),
+    (SET, 'PartialEq', 'eq'): ({'C14'}, quantifier_iteration('seteq'), {'continued'}),
     (SET, None, 'is_subset'): ({'C08'}, quantifier_iteration('subset'), {'continued'}),
     (SET, None, 'is_superset'): ({'C08'}, quantifier_iteration('subset'), {'continued'}),
     (SET, None, 'is_disjoint'): ({'C08'}, quantifier_iteration('disjoint'), {'continued'}),
+    (DIFF, 'Iterator', 'next'): ({'C08'}, filter_iteration('diff', False), set()),
+    (DIFFREF, 'Iterator', 'next'): ({'C08'}, filter_iteration('diff', False), set()),
+    (INTER, 'Iterator', 'next'): ({'C08'}, filter_iteration('inter', False), set()),
+    (DIFF, 'Iterator', 'fold'): ({'C08'}, filter_iteration('diff', True), {'folded', 'dropped'}),
+    (DIFFREF, 'Iterator', 'fold'): ({'C08'}, filter_iteration('diff', True), {'folded', 'dropped'}),
+    (INTER, 'Iterator', 'fold'): ({'C08'}, filter_iteration('inter', True), {'folded', 'dropped'}),
     (SET, 'Extend', 'extend'): ({'C16', 'C07'}, lambda pr: bulk_iteration(pr, _pulled_cb, _item_of_cb), {'item', 'hit', 'append'}),
 }
 
@@ -1262,7 +1541,8 @@ def required_classes(key):
     if key[2] == 'clone' and key[0] in (MAP, SET):
         return {'cloned'}
     if key in HANDLERS and key[2] in ('iter', 'iter_mut', 'keys', 'values', 'values_mut', 'drain', 'into_iter',
-                                      'into_keys', 'into_values', 'clone'):
+                                      'into_keys', 'into_values', 'clone', 'difference', 'difference_ref',
+                                      'intersection', 'union', 'symmetric_difference'):
         return {'made'}
     if key[2] == 'clear':
         return {'cleared'}
@@ -1333,10 +1613,21 @@ HANDLERS.update({
     (MAP, 'Clone', 'clone'): ({'C15'}, h_clone_result),
     (SET, 'Clone', 'clone'): ({'C15'}, h_clone_result),
     (MAP, 'PartialEq', 'eq'): ({'C14'}, h_quantifier('eq', 'either')),
-    (SET, 'PartialEq', 'eq'): ({'C14'}, h_quantifier('eq', 'either')),
+    (SET, 'PartialEq', 'eq'): ({'C14'}, h_quantifier('seteq', 'either')),
     (SET, None, 'is_subset'): ({'C08'}, h_quantifier('subset', 'self')),
     (SET, None, 'is_superset'): ({'C08'}, h_quantifier('subset', 'other')),
     (SET, None, 'is_disjoint'): ({'C08'}, h_quantifier('disjoint', 'either')),
+    (DIFF, 'Iterator', 'next'): ({'C08'}, h_filter_next('diff')),
+    (DIFFREF, 'Iterator', 'next'): ({'C08'}, h_filter_next('diff')),
+    (INTER, 'Iterator', 'next'): ({'C08'}, h_filter_next('inter')),
+    (DIFF, 'Iterator', 'size_hint'): ({'C08'}, h_filter_hint('diff')),
+    (DIFFREF, 'Iterator', 'size_hint'): ({'C08'}, h_filter_hint('diff')),
+    (INTER, 'Iterator', 'size_hint'): ({'C08'}, h_filter_hint('inter')),
+    (SET, None, 'difference'): ({'C08'}, h_make_algebra('difference')),
+    (SET, None, 'difference_ref'): ({'C08'}, h_make_algebra('difference')),
+    (SET, None, 'intersection'): ({'C08'}, h_make_algebra('intersection')),
+    (SET, None, 'union'): ({'C08'}, h_make_algebra('union')),
+    (SET, None, 'symmetric_difference'): ({'C08'}, h_make_algebra('symmetric_difference')),
     (MAP, None, 'clear'): ({'C01'}, h_clear),
     (SET, None, 'clear'): ({'C07'}, h_clear),
 })
